@@ -148,6 +148,9 @@ func gffClasses(f iogen.GffFile) []string {
 	if f.Header {
 		l = append(l, "header")
 	}
+	if f.WholeScores && seen["score"] {
+		l = append(l, "whole-scores-at-precision-0")
+	}
 	if nt {
 		l = append(l, vlib.NT)
 	}
